@@ -158,6 +158,27 @@ def build(r):
         L.append("      }) : (!dart.stream<i64>, !dart.stream<i64>) -> !dart.stream<i64>")
         L.append("      dart.yield %3 : !dart.stream<i64>")
         L.append(f"    }}) : ({', '.join(tys)}) -> ()")
+    elif k == "rescale":
+        # the rescale-only function of snax_gemmx: out[m, k] = rescale(in[m, k]), i32 -> i8
+        M, K = r["M"], r["K"]
+        shapes = [[M, K], [M, K]]
+        etys = ["i32", "i8"]
+        tys = []
+        for i, sh in enumerate(shapes):
+            l = _strided(r["given"][i % len(r["given"])], sh) if lay == "given" else None
+            tys.append(_mt(sh, etys[i], l))
+        ident = "affine_map<(d0, d1) -> (d0, d1)>"
+        L.append(f"  func.func public @main(%arg0 : {tys[0]}, %arg1 : {tys[1]}) {{")
+        L.append(f'    "dart.operation"(%arg0, %arg1) <{{patterns = [{ident}, {ident}], accelerator = "snax_gemmx", operandSegmentSizes = array<i32: 1, 1>}}> ({{')
+        L.append("    ^bb0(%s0 : !dart.stream<i32>, %s1 : !dart.stream<i8>):")
+        L.append('      %g0 = "dart.generic"(%s0) <{library_call = "snax_gemmx"}> ({')
+        L.append("      ^bb1(%v : i32, %o : i8):")
+        L.append("        %k0 = kernel.rescale %v {double_round = true, input_zp = 3 : i32, max_int = 127 : i32, min_int = -128 : i32, "
+                 "multiplier = array<i32: 1140768826>, output_zp = -5 : i32, shift = array<i32: 47>} : (i32) -> i8")
+        L.append("        dart.yield %k0 : i8")
+        L.append("      }) : (!dart.stream<i32>) -> !dart.stream<i8>")
+        L.append("      dart.yield %g0 : !dart.stream<i8>")
+        L.append(f"    }}) : ({', '.join(tys)}) -> ()")
     else:
         if k in ("matmul", "gemm"):
             M, N, K = r["M"], r["N"], r["K"]
@@ -185,6 +206,10 @@ def build(r):
             maps = [f"affine_map<{d} -> (d0, d4, {sy}, {sx})>", f"affine_map<{d} -> (d1, d4, d5, d6)>", f"affine_map<{d} -> (d0, d1, d2, d3)>"]
             shapes = [[Nn, C, IY, IX], [F, C, FY, FX], [Nn, F, OY, OX]]
         etys = ["i8", "i8"] + ["i32"] * (len(shapes) - 2)
+        i8_out = bool(r.get("i8_out")) and k in ("matmul", "gemm")
+        if i8_out:
+            # the i8 output variants of snax_gemmx: a rescale behind the (q)mac [+ add]
+            etys[-1] = "i8"
         tys = []
         for i, sh in enumerate(shapes):
             l = _strided(r["given"][i % len(r["given"])], sh) if lay == "given" else None
@@ -220,7 +245,15 @@ def build(r):
             L.append("        dart.yield %k1 : i32")
             L.append("      }) : (!dart.stream<i32>, !dart.stream<i32>) -> !dart.stream<i32>")
             last = "%g1"
-        L.append(f"      dart.yield {last} : !dart.stream<i32>")
+        if i8_out:
+            L.append(f'      %g2 = "dart.generic"({last}) <{{library_call = "snax_gemmx"}}> ({{')
+            L.append("      ^bb3(%v : i32, %o3 : i8):")
+            L.append("        %k2 = kernel.rescale %v {double_round = true, input_zp = 3 : i32, max_int = 127 : i32, min_int = -128 : i32, "
+                     "multiplier = array<i32: 1140768826>, output_zp = -5 : i32, shift = array<i32: 47>} : (i32) -> i8")
+            L.append("        dart.yield %k2 : i8")
+            L.append("      }) : (!dart.stream<i32>) -> !dart.stream<i8>")
+            last = "%g2"
+        L.append(f"      dart.yield {last} : !dart.stream<{etys[-1]}>")
         L.append(f"    }}) : ({', '.join(tys)}) -> ()")
     L.append("    func.return")
     L.append("  }")
@@ -554,6 +587,8 @@ def prop(r):
     cls = ["kind:" + r["kind"], "layout:" + r["layout"], "steps:" + ("1" if nsteps == 1 else "2+"), "tdims:%d" % (len(bounds) - n_sp)]
     if len(set(id(o) for o in sched.operands)) < len(sched.operands):
         cls.append("one-buffer-feeds-two-operands")
+    if r.get("i8_out") and r["kind"] in ("matmul", "gemm"):
+        cls.append("gemmx-i8-output:" + r["kind"])
     cls += sorted({"ref:" + d for d, _ in descs})
     if any(g - {1} for g in fill.values()):
         cls.append("spatial_fillup")
@@ -579,7 +614,7 @@ def _given(draw, rank, tsl_in_4=1, inner=4):
 @st.composite
 def recipe(draw, tier):
     big = tier == "thorough"
-    kind = draw(st.sampled_from(["alu", "alu", "matmul", "matmul", "gemm", "conv"]))
+    kind = draw(st.sampled_from(["alu", "alu", "alu", "alu", "matmul", "matmul", "matmul", "matmul", "gemm", "gemm", "conv", "conv", "rescale"]))
     layout = draw(st.sampled_from(["none", "pass_tiled", "pass_tiled", "pass_untiled", "given", "given"]))
     r = dict(kind=kind, layout=layout)
     mult8 = st.sampled_from([8, 16, 24, 32] + ([40, 64] if big else []))
@@ -597,6 +632,10 @@ def recipe(draw, tier):
             # the transposed input needs the (swapped) last dim to be schedulable too
             r["shape"][-2] = draw(st.sampled_from([4, 8, 12]))
         return r
+    if kind == "rescale":
+        r["M"], r["K"] = draw(mult8), draw(mult8)
+        r["given"] = [draw(_given(2, 3, 8)) for _ in range(2)]
+        return r
     if kind in ("matmul", "gemm"):
         # shapes that are not multiples of the template bound are refused by the scheduler (documented TODO): keep them rare
         odd = draw(st.integers(0, 11))
@@ -606,6 +645,7 @@ def recipe(draw, tier):
         r["qmac"] = draw(st.booleans())
         r["bias_1d"] = draw(st.booleans())
         r["b_transposed"] = draw(st.booleans())
+        r["i8_out"] = draw(st.integers(0, 2)) == 0
         # plain strided layouts are almost always refused by the conversion for gemmx (its 8x8 tiles are not contiguous): favour tiled ones
         r["given"] = [draw(_given(2, 3, 8)) for _ in range(4)]
         if r["b_transposed"] and layout in ("none", "given") and draw(st.integers(0, 2)) == 0:
